@@ -26,6 +26,10 @@ func setBounds() {
 	}
 }
 
+// FillSmall restricts integers drawn by the generated fillers to one-byte
+// varints (the values stay symbolic; only the varint-length case split goes).
+var FillSmall bool
+
 func idx(nm string, i int) string { return nm + "[" + string(rune('0'+i)) + "]" }
 
 func fillTime(nm string, v *time.Time) {
